@@ -167,4 +167,92 @@ theorem connect_ring_closed (ls : List Loc) (L : Int) (hne : ls ≠ []) (hL : 0 
   · rw [if_pos rfl]
     exact connectLocations_B 1 ls L _ hne hL hok hred (by rw [hany, htwo]) htwo
 
+/-- the reduced form of each kind of input -/
+theorem toR_eq (L : Int) (hL : 0 < L) (l : Loc) (h : RingIn L l) :
+    (∃ p, l.parts = [p] ∧ l.start = p.lo ∧ l.end = p.hi ∧ toR l = .one p) ∨
+    (∃ x y, l = areaTwo x y L .rev ∧ 0 < y ∧ y ≤ x ∧ x < L ∧ toR l = .one ⟨0, L, .rev⟩) ∨
+    (∃ x y s, s ≠ .rev ∧ l = areaTwo x y L s ∧ 0 < y ∧ y ≤ x ∧ x < L ∧ toR l = .two x y) ∨
+    (∃ x y, l = areaTwoRev x y L ∧ 0 < y ∧ y ≤ x ∧ x < L ∧ toR l = .two x y) := by
+  rcases h with ⟨p, hp, h0, h1, h2⟩ | ⟨x, y, s, rfl, hy0, hyx, hxL⟩ | ⟨x, y, rfl, hy0, hyx, hxL⟩
+  · have hb : bridgesOrigin l = false := by
+      cases l with
+      | simple q => rfl
+      | compound ps =>
+        simp only [Loc.parts] at hp; subst hp
+        cases hs : p.strand <;> simp [bridgesOrigin, Loc.strand, hs, orderInvalid, sortInts, insertInt]
+    have he : (⟨l.start, l.end, l.strand⟩ : Part) = p := by
+      cases l with
+      | simple q => simp only [Loc.parts, List.cons.injEq, and_true] at hp; subst hp; rfl
+      | compound ps =>
+        simp only [Loc.parts] at hp; subst hp
+        cases p; simp [Loc.start, Loc.end, Loc.strand, minList, maxList]
+    have ht : toR l = .one p := by simp only [toR, hb, Bool.false_eq_true, if_false, he]
+    exact Or.inl ⟨p, hp, (start_single l p hp).1, (start_single l p hp).2, ht⟩
+  · by_cases hs : s = .rev
+    · subst hs
+      have hb : bridgesOrigin (areaTwo x y L .rev) = false := by
+        have : ¬ x < 0 := by omega
+        simp [areaTwo, bridgesOrigin, Loc.strand, orderInvalid, this]
+      have hst : (areaTwo x y L .rev).start = 0 := by simp [areaTwo, Loc.start, minList]; omega
+      have hen : (areaTwo x y L .rev).end = L := by simp [areaTwo, Loc.end, maxList]; omega
+      have hsd : (areaTwo x y L .rev).strand = .rev := by simp [areaTwo, Loc.strand]
+      have ht : toR (areaTwo x y L .rev) = .one ⟨0, L, .rev⟩ := by
+        simp only [toR, hb, Bool.false_eq_true, if_false, hst, hen, hsd]
+      exact Or.inr (Or.inl ⟨x, y, rfl, hy0, hyx, hxL, ht⟩)
+    · have hb : bridgesOrigin (areaTwo x y L s) = true := by
+        have h1 : x > 0 := by omega
+        have h2 : ¬ x ≤ 0 := by omega
+        cases s <;> simp [areaTwo, bridgesOrigin, Loc.strand, orderInvalid, sortInts, insertInt, h1, h2] at hs ⊢
+        all_goals omega
+      have hsr : (s == Strand.rev) = false := by simpa using hs
+      have ht : toR (areaTwo x y L s) = .two x y := by
+        simp only [toR, hb, if_true]
+        simp only [areaTwo, Loc.parts, hsr, Bool.false_eq_true, if_false]
+      exact Or.inr (Or.inr (Or.inl ⟨x, y, s, hs, rfl, hy0, hyx, hxL, ht⟩))
+  · have hb : bridgesOrigin (areaTwoRev x y L) = true := by
+      have h1 : 0 < x := by omega
+      simp [areaTwoRev, bridgesOrigin, Loc.strand, orderInvalid, h1]
+    have ht : toR (areaTwoRev x y L) = .two x y := by
+      simp only [toR, hb, if_true]
+      simp only [areaTwoRev, Loc.parts, beq_self_eq_true, if_true]
+    exact Or.inr (Or.inr (Or.inr ⟨x, y, rfl, hy0, hyx, hxL, ht⟩))
+
+/-- reducing keeps `start` and `end` -/
+theorem toR_start_end (L : Int) (hL : 0 < L) (l : Loc) (h : RingIn L l) :
+    ((toR l).toLoc L).start = l.start ∧ ((toR l).toLoc L).end = l.end := by
+  rcases toR_eq L hL l h with ⟨p, hp, h1, h2, ht⟩ | ⟨x, y, rfl, hy0, hyx, hxL, ht⟩ |
+      ⟨x, y, s, hs, rfl, hy0, hyx, hxL, ht⟩ | ⟨x, y, rfl, hy0, hyx, hxL, ht⟩
+  · rw [ht, h1, h2]; exact ⟨rfl, rfl⟩
+  · rw [ht]; simp only [RLoc.toLoc, areaTwo, Loc.start, Loc.end, List.map, minList, maxList, List.foldl]; omega
+  · rw [ht]; exact ⟨rfl, rfl⟩
+  · rw [ht]; simp only [RLoc.toLoc, areaTwoRev, Loc.start, Loc.end, List.map, minList, maxList, List.foldl, fl]; omega
+
+/-- an input whose reduced form has exactly its bases: everything except the two-exon
+    reverse-strand location `[x, L)(-), [0, y)(-)`, which Biopython's part order makes an ordinary
+    (not origin-spanning) gene with an intron, reduced to its line hull `[0, L)` -/
+def RingInStrict (L : Int) (l : Loc) : Prop :=
+  (∃ p, l.parts = [p] ∧ 0 ≤ p.lo ∧ p.lo < p.hi ∧ p.hi ≤ L) ∨
+  (∃ x y s, s ≠ .rev ∧ l = areaTwo x y L s ∧ 0 < y ∧ y ≤ x ∧ x < L) ∨
+  (∃ x y, l = areaTwoRev x y L ∧ 0 < y ∧ y ≤ x ∧ x < L)
+
+theorem RingInStrict.ringIn {L : Int} {l : Loc} (h : RingInStrict L l) : RingIn L l := by
+  rcases h with h | ⟨x, y, s, _, h⟩ | h
+  · exact Or.inl h
+  · exact Or.inr (Or.inl ⟨x, y, s, h⟩)
+  · exact Or.inr (Or.inr h)
+
+theorem toR_mem_iff (L : Int) (hL : 0 < L) (l : Loc) (h : RingInStrict L l) (i : Int) :
+    ((toR l).toLoc L).mem i = true ↔ l.mem i = true := by
+  rcases toR_eq L hL l h.ringIn with ⟨p, hp, h1, h2, ht⟩ | ⟨x, y, rfl, hy0, hyx, hxL, ht⟩ |
+      ⟨x, y, s, hs, rfl, hy0, hyx, hxL, ht⟩ | ⟨x, y, rfl, hy0, hyx, hxL, ht⟩
+  · rw [ht]; simp only [RLoc.toLoc, Loc.mem, hp]; rfl
+  · exfalso
+    rcases h with ⟨p, hp, _⟩ | ⟨x', y', s, hs, e, _⟩ | ⟨x', y', e, _⟩
+    · simp [areaTwo, Loc.parts] at hp
+    · simp only [areaTwo, Loc.compound.injEq, List.cons.injEq, Part.mk.injEq, and_true] at e
+      exact hs e.1.2.2.symm
+    · simp [areaTwo, areaTwoRev] at e; omega
+  · rw [ht, areaTwo, mem_two]; simp only [RLoc.toLoc, mem_two, fl]
+  · rw [ht, areaTwoRev, mem_two]; simp only [RLoc.toLoc, mem_two, fl]; omega
+
 end ASV
